@@ -190,36 +190,104 @@ def rule_walk_accounting(prog, fixture=False):
                   "an empty file hands the visitor 0 bytes" if z == 0 else
                   "for a file of length 0 the visitor is handed %d bytes (the contents of the sector at its start "
                   "address) instead of none" % z)
-        # loop bounds: for (sec = start_sector(); sec <= last_sector(); ++sec) with read_block(sec)
+        # sectors walked: first read = start_sector(), last read = last_sector(), consecutive.
+        # Decided with linear forms over {start_sector(), last_sector(), file_length()}:
+        #   first  = argument of read_block with the induction variable at its initial value
+        #   count  = trip count of the loop (i < N from a: N - a;  i <= E from a: E - a + 1)
+        #   last   = first + count - 1
         probs2 = []
         loops = [n for n in fn.walk() if n.get("k") == "ForStmt" and any(x is vc for x in walk(n))]
         if len(loops) != 1:
-            probs2.append("the visitor is not invoked from a single for loop")
+            r.undecided.append("the visitor is not invoked from a single for loop")
         else:
             lp = loops[0]
             parts = lp["parts"]
             iv = [x for x in walk(lp["c"][parts["init"]]) if x.get("k") == "VarDecl"] if "init" in parts else []
             cond = strip_all(lp["c"][parts["cond"]]) if "cond" in parts else None
-            if not iv or cond is None:
-                probs2.append("loop without induction variable/condition")
+            inc = strip_all(lp["c"][parts["inc"]]) if "inc" in parts else None
+            rb = [x for x in walk(lp) if x.get("k") == "CXXMemberCallExpr" and (strip(x["c"][0]) or {}).get("n") == "read_block"]
+            if not iv or cond is None or len(rb) != 1 or inc is None or not (inc.get("k") == "UnaryOperator" and inc.get("op") == "++"
+                                                                          and strip_all(inc["c"][0]).get("d") == iv[0]["d"]):
+                r.undecided.append("the sector loop is not a counted for loop with one read_block per iteration")
             else:
                 i = iv[0]
-                src0 = _named_call_source(fn, i["c"][0] if i.get("c") else None)
-                if src0 != "start_sector":
-                    probs2.append("the walk starts at %s, not start_sector()" % (src0 or "?"))
-                if cond.get("k") == "BinaryOperator" and cond.get("op") in ("<=", "<") and strip_all(cond["c"][0]).get("d") == i["d"]:
-                    src1 = _named_call_source(fn, cond["c"][1])
-                    if not (cond["op"] == "<=" and src1 == "last_sector"):
-                        probs2.append("the walk's bound is `%s`, not `<= last_sector()`" % show(cond))
+                a = _lin(fn, i["c"][0] if i.get("c") else None)
+                ok_shape = cond.get("k") == "BinaryOperator" and cond.get("op") in ("<", "<=") and strip_all(cond["c"][0]).get("d") == i["d"]
+                bound = _lin(fn, cond["c"][1]) if ok_shape else None
+                arg0 = _lin(fn, rb[0]["c"][1], {i["d"]: a}) if a is not None else None
+                argi = _lin(fn, rb[0]["c"][1], {i["d"]: {"<i>": 1}})
+                if a is None or bound is None or arg0 is None or argi is None:
+                    r.undecided.append("the sector loop's bounds are not linear in start_sector()/last_sector()")
                 else:
-                    probs2.append("unrecognised loop condition %s" % show(cond))
-                # read_block argument is the induction variable
-                rb = [x for x in walk(lp) if x.get("k") == "CXXMemberCallExpr" and (strip(x["c"][0]) or {}).get("n") == "read_block"]
-                if len(rb) != 1 or strip_all(rb[0]["c"][1]).get("d") != i["d"]:
-                    probs2.append("the sector read is not the loop's sector")
-        r.add("%s::%s::sectors" % (fn.relfile(), fn.qn), loc, not probs2,
-              "sectors start_sector()..last_sector(), one read each" if not probs2 else "; ".join(probs2))
+                    count = _lin_sub(bound, a)
+                    if cond["op"] == "<=":
+                        count = _lin_add(count, {"": 1})
+                    last = _lin_add(_lin_add(arg0, count), {"": -1})
+                    if _lin_norm(arg0) != {"start_sector": 1}:
+                        probs2.append("the first sector read is %s, not start_sector()" % _lin_show(arg0))
+                    if _lin_norm(last) != {"last_sector": 1}:
+                        probs2.append("the last sector read is %s, not last_sector()" % _lin_show(last))
+                    if argi.get("<i>") != 1:
+                        probs2.append("consecutive iterations do not read consecutive sectors")
+                r.add("%s::%s::sectors" % (fn.relfile(), fn.qn), loc, not probs2,
+                      "sectors start_sector()..last_sector(), one read each" if not probs2 else "; ".join(probs2))
     return r
+
+
+def _lin(fn, e, subst=None, depth=0):
+    """Linear form {symbol: coefficient, "": constant} of an integer expression over the
+    accessors start_sector()/last_sector()/file_length(); locals resolved through their
+    (single) initialiser; `subst` maps decl ids to linear forms.  None if not linear."""
+    e = strip_all(e)
+    if e is None or depth > 10:
+        return None
+    v = folded(e)
+    if v is not None:
+        return {"": v}
+    k = e.get("k")
+    if k == "CXXMemberCallExpr":
+        nm = (strip(e["c"][0]) or {}).get("n")
+        if nm in ("start_sector", "last_sector", "file_length"):
+            return {nm: 1}
+        return None
+    if k == "DeclRefExpr":
+        if subst and e.get("d") in subst:
+            return dict(subst[e["d"]])
+        for vd in fn.walk():
+            if vd.get("k") == "VarDecl" and vd.get("d") == e.get("d") and vd.get("c"):
+                return _lin(fn, vd["c"][0], subst, depth + 1)
+        return None
+    if k in ("CStyleCastExpr", "CXXStaticCastExpr", "CXXFunctionalCastExpr") and e.get("c"):
+        return _lin(fn, e["c"][0], subst, depth + 1)
+    if k == "CallExpr" and len(call_args(e)) == 1 and notpl(e.get("q") or "").endswith("sector_count"):
+        return _lin(fn, call_args(e)[0], subst, depth + 1)
+    if k == "BinaryOperator" and e.get("op") in ("+", "-"):
+        a = _lin(fn, e["c"][0], subst, depth + 1)
+        b = _lin(fn, e["c"][1], subst, depth + 1)
+        if a is None or b is None:
+            return None
+        return _lin_add(a, b) if e["op"] == "+" else _lin_sub(a, b)
+    return None
+
+
+def _lin_add(a, b):
+    out = dict(a)
+    for k, v in b.items():
+        out[k] = out.get(k, 0) + v
+    return out
+
+
+def _lin_sub(a, b):
+    return _lin_add(a, {k: -v for k, v in b.items()})
+
+
+def _lin_norm(a):
+    return {k: v for k, v in a.items() if v != 0}
+
+
+def _lin_show(a):
+    a = _lin_norm(a)
+    return " + ".join(("%d*%s()" % (v, k) if k else str(v)) for k, v in sorted(a.items())) or "0"
 
 
 def _fold_under(fn, e, accessor_values, depth=0, env=None):
@@ -321,61 +389,164 @@ def _named_call_source(fn, e, depth=0):
     return None
 
 
+def _is_len(fn, e):
+    l = _lin(fn, e)
+    return l is not None and _lin_norm(l) == {"file_length": 1}
+
+
+def _lin_ls(fn, e, zero, depth=0):
+    """_lin extended for last_sector(): recognises ceil(file_length/256) in its two usual
+    spellings as the symbol CEIL (0 when the length is assumed zero) and resolves
+    conditionals on the length by the assumption `zero`."""
+    e = strip_all(e)
+    if e is None or depth > 12:
+        return None
+    v = folded(e)
+    if v is not None:
+        return {"": v}
+    k = e.get("k")
+    if k == "ConditionalOperator":
+        c = strip_all(e["c"][0])
+        t = _len_truth(fn, c, zero)
+        if t is None:
+            return None
+        return _lin_ls(fn, e["c"][1] if t else e["c"][2], zero, depth + 1)
+    if k == "BinaryOperator" and e.get("op") == "/":
+        # (len + 255) / 256
+        num = _lin(fn, e["c"][0])
+        if folded(e["c"][1]) == 256 and num is not None and _lin_norm(num) == {"file_length": 1, "": 255}:
+            return {"": 0} if zero else {"CEIL": 1}
+        return None
+    if k == "BinaryOperator" and e.get("op") in ("+", "-"):
+        # quot + (rem ? 1 : 0)
+        a, b = strip_all(e["c"][0]), strip_all(e["c"][1])
+        if e["op"] == "+" and _ldiv_member(fn, a) == "quot" and b.get("k") == "ConditionalOperator" and \
+                _ldiv_member(fn, b["c"][0]) == "rem" and folded(b["c"][1]) == 1 and folded(b["c"][2]) == 0:
+            return {"": 0} if zero else {"CEIL": 1}
+        la, lb = _lin_ls(fn, a, zero, depth + 1), _lin_ls(fn, b, zero, depth + 1)
+        if la is None or lb is None:
+            return None
+        return _lin_add(la, lb) if e["op"] == "+" else _lin_sub(la, lb)
+    if k == "CXXMemberCallExpr":
+        nm = (strip(e["c"][0]) or {}).get("n")
+        if nm in ("start_sector", "file_length"):
+            return {nm: 1}
+        return None
+    if k == "DeclRefExpr":
+        for vd in fn.walk():
+            if vd.get("k") == "VarDecl" and vd.get("d") == e.get("d") and vd.get("c"):
+                return _lin_ls(fn, vd["c"][0], zero, depth + 1)
+        return None
+    if k in ("CStyleCastExpr", "CXXStaticCastExpr", "CXXFunctionalCastExpr") and e.get("c"):
+        return _lin_ls(fn, e["c"][0], zero, depth + 1)
+    if k == "CallExpr" and len(call_args(e)) == 1 and notpl(e.get("q") or "").endswith("sector_count"):
+        return _lin_ls(fn, call_args(e)[0], zero, depth + 1)
+    return None
+
+
+def _ldiv_member(fn, e):
+    """'quot' / 'rem' if e is that member of a variable initialised from ldiv(file_length, 256)."""
+    e = strip_all(e)
+    while e is not None and e.get("k") in ("CStyleCastExpr", "CXXStaticCastExpr") and e.get("c"):
+        e = strip_all(e["c"][0])
+    if e is None or e.get("k") != "MemberExpr" or e.get("n") not in ("quot", "rem") or not e.get("c"):
+        return None
+    b = strip_all(e["c"][0])
+    if b.get("k") != "DeclRefExpr":
+        return None
+    for vd in fn.walk():
+        if vd.get("k") == "VarDecl" and vd.get("d") == b.get("d") and vd.get("c"):
+            init = strip_all(vd["c"][0])
+            if init.get("k") == "CallExpr" and notpl(init.get("q") or "") in ("ldiv", "std::ldiv", "div", "std::div", "lldiv"):
+                a = call_args(init)
+                if len(a) == 2 and folded(a[1]) == 256 and _is_len(fn, a[0]):
+                    return e.get("n")
+    return None
+
+
+def _len_truth(fn, c, zero):
+    """Truth of a condition that only tests whether the file length is zero; None if it is something else."""
+    c = strip_all(c)
+    if c is None:
+        return None
+    if c.get("k") == "UnaryOperator" and c.get("op") == "!":
+        t = _len_truth(fn, c["c"][0], zero)
+        return None if t is None else (not t)
+    if c.get("k") == "BinaryOperator" and c.get("op") in ("==", "!=", ">"):
+        l, r = c["c"][0], c["c"][1]
+        if folded(r) == 0 and _is_len(fn, l):
+            return {"==": zero, "!=": not zero, ">": not zero}[c["op"]]
+        if folded(l) == 0 and _is_len(fn, r) and c["op"] in ("==", "!="):
+            return zero if c["op"] == "==" else (not zero)
+        return None
+    if _is_len(fn, c):
+        return not zero
+    return None
+
+
 def rule_last_sector(prog, fixture=False):
-    r = RuleResult("R-C01-5", "last_sector(): start when the length is 0, else start + ceil(length/256) - 1",
-                   floor=0 if fixture else 1)
+    r = RuleResult("R-C01-5", "last_sector() is start_sector() for an empty file and "
+                   "start_sector() + ceil(length/256) - 1 otherwise (linear forms with a ceiling-division symbol, "
+                   "case split on length == 0)", floor=0 if fixture else 1)
     for fn in prog.fn("DFS::CatalogEntry::last_sector", required=not fixture):
+        key = "%s::%s" % (fn.relfile(), fn.qn)
+        loc = "%s:%d" % (fn.relfile(), fn.line)
+        results = {}
+        undecided = None
+        for zero in (True, False):
+            vals = []
+            for n in fn.walk():
+                if n.get("k") != "ReturnStmt" or not n.get("c"):
+                    continue
+                # is this return excluded by an enclosing / preceding test of the length?
+                feasible = True
+                child = n
+                for a in fn.ancestors(n):
+                    if a.get("k") == "IfStmt":
+                        p = a["parts"]
+                        t = _len_truth(fn, a["c"][p["cond"]], zero)
+                        in_then = any(x is child for x in [a["c"][p["then"]]]) if "then" in p else False
+                        in_else = any(x is child for x in [a["c"][p["else"]]]) if "else" in p else False
+                        if t is None:
+                            if in_then or in_else:
+                                undecided = "a return depends on a condition other than the length being zero"
+                        elif (in_then and not t) or (in_else and t):
+                            feasible = False
+                    child = a
+                if not feasible:
+                    continue
+                # an earlier `if (len == 0) return ..;` takes the zero case away from later returns
+                par = fn.parent(n)
+                if par is not None and par.get("k") == "CompoundStmt":
+                    for sib in par["c"]:
+                        if sib is n:
+                            break
+                        if sib.get("k") == "IfStmt" and "else" not in sib["parts"]:
+                            t = _len_truth(fn, sib["c"][sib["parts"]["cond"]], zero)
+                            then = sib["c"][sib["parts"]["then"]]
+                            leaves = then.get("k") == "ReturnStmt" or (then.get("k") == "CompoundStmt" and then.get("c") and then["c"][-1].get("k") == "ReturnStmt")
+                            if t and leaves:
+                                feasible = False
+                if not feasible:
+                    continue
+                v = _lin_ls(fn, n["c"][0], zero)
+                if v is None:
+                    undecided = "the returned expression `%s` is not of a recognised form" % show(n["c"][0])[:70]
+                else:
+                    vals.append(_lin_norm(v))
+            results[zero] = vals
+        if undecided or not results[True] or not results[False]:
+            r.undecided.append("last_sector(): " + (undecided or "no return found for one of the cases"))
+            continue
         problems = []
-        g = Guards(fn)
-        rets = [n for n in fn.walk() if n.get("k") == "ReturnStmt" and n.get("c")]
-        # a return of `start` under the fact len == 0
-        zero_ret = False
-        gen_ret = None
-        for rt in rets:
-            cs = g.cmps(rt) or []
-            if any(rel == "==" and (folded(a) == 0 or folded(b) == 0) and
-                   ("file_length" in (_named_call_source(fn, a) or "") or "file_length" in (_named_call_source(fn, b) or ""))
-                   for a, rel, b in cs):
-                if _named_call_source(fn, rt["c"][0]) == "start_sector":
-                    zero_ret = True
-            else:
-                gen_ret = rt
-        if not zero_ret:
-            problems.append("no `length == 0 -> start_sector()` case")
-        divs = []
-        if gen_ret is None:
-            problems.append("no general case")
-        else:
-            # start + sectors - 1, sectors = quot + (rem ? 1 : 0) of ldiv(len, 256)  or (len + 255) / 256
-            txt = show(gen_ret["c"][0])
-            divs = [n for n in fn.walk() if n.get("k") == "CallExpr" and notpl(n.get("q") or "") in ("ldiv", "div", "std::ldiv", "std::div")]
-            ok_div = False
-            for d in divs:
-                a = call_args(d)
-                if len(a) == 2 and folded(a[1]) == 256 and _named_call_source(fn, a[0]) == "file_length":
-                    ok_div = True
-            if not ok_div:
-                problems.append("the length is not divided by the 256-byte sector size")
-            e = strip_all(gen_ret["c"][0])
-            while e is not None and is_call(e) and len(call_args(e)) == 1:
-                e = strip_all(call_args(e)[0])
-            if not (e is not None and e.get("k") == "BinaryOperator" and e.get("op") == "-" and folded(e["c"][1]) == 1):
-                problems.append("the result is not `start + sectors - 1` (%s)" % txt[:50])
-            else:
-                s = strip_all(e["c"][0])
-                if not (s.get("k") == "BinaryOperator" and s.get("op") == "+" and
-                        _named_call_source(fn, s["c"][0]) == "start_sector"):
-                    problems.append("the result is not based on start_sector()")
-            # rounding up: quot + (rem ? 1 : 0)
-            roundup = any(n.get("k") == "ConditionalOperator" and folded(n["c"][1]) == 1 and folded(n["c"][2]) == 0 and
-                          any(x.get("k") == "MemberExpr" and x.get("n") == "rem" for x in walk(n["c"][0])) for n in fn.walk())
-            if not roundup:
-                problems.append("a partial final sector is not rounded up")
-        if problems and not divs:
-            r.undecided.append("last_sector() is not written with ldiv(length, 256); its arithmetic cannot be followed: " + "; ".join(problems))
-        else:
-            r.add("%s::%s" % (fn.relfile(), fn.qn), "%s:%d" % (fn.relfile(), fn.line), not problems,
-                  "0 -> start; else start + ceil(len/256) - 1" if not problems else "; ".join(problems))
+        for v in results[True]:
+            if v != {"start_sector": 1}:
+                problems.append("for an empty file it returns %s, not start_sector()" % _lin_show(v))
+        for v in results[False]:
+            if v != {"start_sector": 1, "CEIL": 1, "": -1}:
+                problems.append("for a non-empty file it returns %s, not start_sector() + ceil(length/256) - 1" %
+                                _lin_show(v).replace("CEIL()", "ceil(length/256)"))
+        r.add(key, loc, not problems, "0 -> start; else start + ceil(len/256) - 1" if not problems else "; ".join(problems))
     return r
 
 
